@@ -309,6 +309,17 @@ def check_terminus_latch(ctx, rule, rl):
            'every record filter of the atom block precedes the terminus bookkeeping, so a record '
            'that is skipped neither consumes nor re-arms the N-terminus latch (late filters: %s)'
            % [norm(st.test)[:50] for st in late], rl.mod, late[0] if late else rl.atom_block)
+    # hydrogens that are dropped (no keep-protons) are records that are filtered
+    # out as well: the test on the element must come before the bookkeeping too
+    h_filters = [i_ for i_, st in rl.filters()
+                 if any(isinstance(x, ast.Constant) and x.value == 'H' for x in ast.walk(st.test))
+                 and any(isinstance(x, ast.Attribute) and x.attr == 'element' for x in ast.walk(st.test))]
+    ctx.ob(rule, 'latch:hydrogens-skipped-before-bookkeeping',
+           bool(h_filters) and first_write is not None and max(h_filters) < first_write,
+           'a hydrogen record that will be discarded is skipped before the terminus bookkeeping '
+           '(a filter on the element in front of the first state write: %s); dropping it only at '
+           'the yield lets a stray hydrogen record of another residue consume the N-terminus latch'
+           % bool(h_filters), rl.mod, rl.atom_block)
     ctx.need(rule, 8)
 
 
